@@ -209,7 +209,7 @@ func runC09(c *Check) {
 		}
 	}
 	c.MinInstances("C09-R2", 4)
-	ruleRetrieveHelper(c, p)
+	ruleRetrieveHelper(c, p, "C09-R3")
 	ruleNilGuard(c, p)
 	c.Doc("C09-R6", "EO: the hand-off of an admitted item to sync cannot be skipped: blocking send, or select with cancellation as the only alternative.")
 	ruleHandOffNotDroppable(c, p)
@@ -399,7 +399,15 @@ func ruleBlobDispatch(c *Check, p *Prog, step *ssa.Function, _ *Graph) {
 	loopCtx := hdrH[0].Ctx
 	head := g.headNode(loopCtx, hb)
 	// the blob handed over is the ranged element of the fetched Data
-	bz := ArgTerm(hdrH[0], 2)
+	// the handler's blob argument: the one of type []byte, wherever it stands
+	var bz *Term
+	if cc := CallCommonOf(hdrH[0]); cc != nil {
+		for i, a := range cc.Args {
+			if a.Type().String() == "[]byte" || strings.HasSuffix(a.Type().String(), "da.Blob") {
+				bz = ArgTerm(hdrH[0], i)
+			}
+		}
+	}
 	if bz != nil && strings.Contains(bz.String(), ".Data[") {
 		c.OK("C09-R4", fnShort(step)+" ⟂ handler-gets-ranged-blob", fn, p.InstrPos(hdrH[0].In), "handler argument is an element of the fetched blob list: "+trunc(bz.String(), 100), true)
 	} else {
@@ -433,8 +441,7 @@ func ruleBlobDispatch(c *Check, p *Prog, step *ssa.Function, _ *Graph) {
 }
 
 // ruleRetrieveHelper (C09-R3).
-func ruleRetrieveHelper(c *Check, p *Prog) {
-	rule := "C09-R3"
+func ruleRetrieveHelper(c *Check, p *Prog, rule string) {
 	fn := p.MustFunc(typesF("RetrieveWithHelpers"))
 	g := BuildECFG(p, fn, ExpandOpts{MaxDepth: 0})
 	c.NoteGraph(g)
@@ -480,6 +487,47 @@ func ruleRetrieveHelper(c *Check, p *Prog) {
 	} else {
 		c.Decide(rule, "RetrieveWithHelpers ⟂ Get-error-not-Success", fnName(fn), p.InstrPos(gets[0].In), "after a failed chunk no Success is reported and no further chunk is read",
 			"a failed DA.Get can still lead to a Success result: blobs of that height would be lost", g, g.PathAvoiding(getErr, orPred(nodeSet(succ), nodeSet(gets)), nil))
+	}
+	// a failed Get (ids were listed, the blobs could not be fetched) is an error, never "nothing at
+	// this height" nor "height from the future": callers move past a height reported as NotFound
+	if len(getErr) > 0 {
+		errCode := fmt.Sprint(consts["StatusError"])
+		reach := g.Reachable(getErr, nil)
+		var wrong []string
+		nEx := 0
+		for _, x := range g.Exits {
+			if !reach[x] {
+				continue
+			}
+			lit := structLitAlloc(x.In.(*ssa.Return).Results[0])
+			if lit == nil {
+				continue
+			}
+			for _, v := range litStores(lit)["BaseResult.Code"] {
+				nEx++
+				for _, leaf := range flattenPhi(TermOf(v, g.RootCtx)) {
+					l := leaf.unconv()
+					if l.Op != "const" || l.Name != errCode {
+						name := l.String()
+						for k, kv := range consts {
+							if fmt.Sprint(kv) == l.Name {
+								name = k
+							}
+						}
+						wrong = append(wrong, name)
+					}
+				}
+			}
+		}
+		sort.Strings(wrong)
+		switch {
+		case nEx == 0:
+			c.Unk(rule, "RetrieveWithHelpers ⟂ Get-error→StatusError", fnName(fn), "", "anchor lost: no result literal is returned after a failed Get")
+		case len(wrong) == 0:
+			c.OK(rule, "RetrieveWithHelpers ⟂ Get-error→StatusError", fnName(fn), p.InstrPos(gets[0].In), "a failed chunk read is always reported as StatusError", true)
+		default:
+			c.Bad(rule, "RetrieveWithHelpers ⟂ Get-error→StatusError", fnName(fn), p.InstrPos(gets[0].In), "after the ids of a height were listed, a failed Get can be reported as "+strings.Join(wrong, ",")+": the scan (DA retrieval, based sequencer) treats that as an empty or future height and moves past blobs that exist", nil)
+		}
 	}
 	// chunking: Get(ids[i:min(i+B, len(ids))]) with i = phi(0, i+B)
 	arg := ArgTerm(gets[0], 1)
